@@ -247,6 +247,18 @@ fn f5_text(v: &RefValue, ch: &[u8], inj: &[(u16, String)], muts: &[gen::Mutation
 
 pub fn replay(_family: &str, case: &J) -> Result<(), String> {
 	let input = dec_bytes(case);
-	let text = String::from_utf8(input).map_err(|e| e.to_string())?;
+	let text = match String::from_utf8(input) {
+		Ok(t) => t,
+		Err(e) => {
+			// same clause as in the families: ill-formed UTF-8 must be rejected under every option record
+			for l in Leniency::ALL {
+				let o = options(l.truncated_pair, l.invalid_codepoint);
+				if <json_syntax::Value as json_syntax::Parse>::parse_slice_with(e.as_bytes(), o).is_ok() {
+					return Err(format!("parse_slice_with with {l:?} accepted ill-formed UTF-8"));
+				}
+			}
+			return Ok(());
+		}
+	};
 	property(&text, &WITH_EPS).map(|_| ())
 }
